@@ -1,6 +1,7 @@
 package gosym
 
 import (
+	"sync"
 	"bufio"
 	"encoding/json"
 	"flag"
@@ -112,6 +113,17 @@ type runReport struct {
 	Truncated    bool                `json:"truncated,omitempty"`
 	Retries      int                 `json:"solver_unknown_retried_in_fresh_context,omitempty"`
 	RetriesOK    int                 `json:"solver_unknown_decided_by_retry,omitempty"`
+	WitnessOK    int                 `json:"witness_paths_replayed_natively_ok,omitempty"`
+	WitnessBad   int                 `json:"witness_paths_native_disagrees,omitempty"`
+}
+
+// witJob: one reachability witness (the model at the end of a completed path) to
+// be run natively; the native harness must pass on it.
+type witJob struct {
+	rep    int
+	rc     RunCfg
+	params map[string]string
+	inputs map[string]string
 }
 
 func Main(args []string) int {
@@ -124,6 +136,7 @@ func Main(args []string) int {
 	workers := fs.Int("workers", 0, "worker count (default: NumCPU)")
 	noReplay := fs.Bool("no-replay", false, "skip native replay of counterexamples")
 	noEvidence := fs.Bool("no-evidence", false, "do not write the evidence file")
+	noWitness := fs.Bool("no-witness", false, "skip native replay of reachability witnesses")
 	verbose := fs.Bool("v", false, "verbose")
 	maxPaths := fs.Int("max-paths", 0, "stop after this many paths (inconclusive)")
 	replayFile := fs.String("replay", "", "replay a stored counterexample file natively")
@@ -189,6 +202,7 @@ func Main(args []string) int {
 	}
 
 	var reports []runReport
+	var wits []witJob
 	replaySeq := 0
 	exit := 0
 	totalViol := 0
@@ -351,6 +365,27 @@ func Main(args []string) int {
 				rep.Msgs["VACUOUS: no path completed"]++
 			}
 			reports = append(reports, rep)
+			if rc.Replay != "none" && !*noReplay && !*noWitness && !rev {
+				nw := 1
+				if *tier == "thorough" {
+					nw = 3
+				}
+				for _, smp := range sum.Samples {
+					if nw == 0 {
+						break
+					}
+					usable := len(smp) > 0
+					for _, v := range smp {
+						if v == "?" {
+							usable = false // value depends on an uninterpreted function: no native counterpart
+						}
+					}
+					if usable {
+						wits = append(wits, witJob{rep: len(reports) - 1, rc: rc, params: params, inputs: smp})
+						nw--
+					}
+				}
+			}
 			if *verbose || true {
 				fmt.Printf("run %-28s paths=%d done=%d infeasible=%d branches=%d queries=%d obligations=%d discharged=%d inconclusive=%d ooe=%d bound=%d err=%d viol=%d known=%d wall=%.1fs solver=%.1fs\n",
 					rep.Name, rep.Paths, rep.Done, rep.Infeasible, rep.Branches, rep.Queries, rep.Obligations, rep.Discharged,
@@ -370,6 +405,66 @@ func Main(args []string) int {
 					fmt.Printf("   [inconclusive %d×] %s\n", n, y)
 				}
 			}
+		}
+	}
+	// Translation check: the engine's own witnesses (inputs of completed paths on
+	// which every assertion was discharged or assumed) are run natively against the
+	// real build; the native harness must pass on each of them.
+	if len(wits) > 0 {
+		wdir, err := os.MkdirTemp("", "gosym-witness-")
+		if err == nil {
+			type wres struct {
+				i               int
+				verdict, detail string
+			}
+			runOne := func(i int) wres {
+				wj := wits[i]
+				path := filepath.Join(wdir, fmt.Sprintf("w%d.json", i))
+				rf := ReplayFile{Property: cfg.Property, Run: wj.rc.Name, Pkg: wj.rc.Pkg, Fn: wj.rc.Fn, Mode: wj.rc.Mode,
+					Kind: "witness", Msg: "reachability witness", Inputs: wj.inputs, Params: wj.params}
+				b, _ := json.MarshalIndent(rf, "", " ")
+				os.WriteFile(path, b, 0o644)
+				var verdict, detail string
+				for try := 0; try < 3; try++ {
+					verdict, detail, _ = nativeRun(*repo, *verifDir, cfgDir, cfg, wj.rc, path)
+					// anything but OK is retried: natively Go's map iteration order and the
+					// scheduler are not under the engine's control; a deterministic
+					// disagreement survives the retries
+					if verdict == "OK" {
+						break
+					}
+				}
+				return wres{i, verdict, detail}
+			}
+			results := make([]wres, len(wits))
+			results[0] = runOne(0) // compiles the test binary once; the rest hit the build cache
+			var wg sync.WaitGroup
+			sem := make(chan struct{}, 4)
+			for i := 1; i < len(wits); i++ {
+				wg.Add(1)
+				go func(i int) {
+					defer wg.Done()
+					sem <- struct{}{}
+					results[i] = runOne(i)
+					<-sem
+				}(i)
+			}
+			wg.Wait()
+			nok := 0
+			for _, r := range results {
+				wj := wits[r.i]
+				if r.verdict == "OK" {
+					reports[wj.rep].WitnessOK++
+					nok++
+					continue
+				}
+				reports[wj.rep].WitnessBad++
+				inconclusive = true
+				fmt.Printf("WITNESS-MISMATCH property=%s run=%s: the engine completed this path with every assertion holding, the native run says %s; inputs=%v %s\n",
+					cfg.Property, wj.rc.Name, r.verdict, wj.inputs, strings.ReplaceAll(r.detail, "\n", " | "))
+			}
+			fmt.Printf("witnesses: %d of %d engine paths replayed natively with the same verdict (pass)\n", nok, len(wits))
+			os.RemoveAll(wdir)
 		}
 	}
 	sort.Strings(knownLines)
@@ -435,7 +530,7 @@ func writeEvidence(verifDir string, cfg Config, tier string, seed int, reports [
 		obligations += r.Obligations
 		discharged += r.Discharged
 		inconc += r.Inconclusive + r.OOE + r.BoundExc + r.Errors
-		validated += r.ReplayOK
+		validated += r.ReplayOK + r.WitnessOK
 		solverS += r.SolverS
 		for _, s := range r.Samples {
 			if len(samples) < 12 {
@@ -479,7 +574,7 @@ func writeEvidence(verifDir string, cfg Config, tier string, seed int, reports [
 			"discharged":                    discharged,
 			"inconclusive":                  inconc,
 			"exhaustive":                    false,
-			"explanation":                   "bounded symbolic execution of the real functions (go/ssa built from /repo's working tree on this run) with z3 deciding every branch and assertion; states = symbolic paths run to completion, transitions = solver-decided branch points; the claim holds for every input within `bounds` and says nothing outside them",
+			"explanation":                   "bounded symbolic execution of the real functions (go/ssa built from /repo's working tree on this run) with z3 deciding every branch and assertion; states = symbolic paths run to completion, transitions = solver-decided branch points; the claim holds for every input within `bounds` and says nothing outside them; obligations - discharged = assertions that fail only inside a finding listed in known_findings.jsonl (each printed as KNOWN-FINDING; outside the finding's predicate the same assertion is discharged), anything else undischarged makes the run exit non-zero; traces_validated_against_impl = engine paths whose solver-chosen inputs were run natively (go test against the real build) with the verdict the engine predicted: reachability witnesses of completed paths (quick: 1 per run, thorough: 3) plus every reported counterexample",
 			"bounds":                        bounds,
 			"functions_encoded":             en,
 			"stubs":                         st,
